@@ -611,4 +611,16 @@ theorem topoOuter_ok {pick : List Nat → Option Nat} (hp : PickOk pick) {order 
           exact hx (hkeep x (by simp [hxp]))
       omega
 
+/-- an event structure whose causes always have smaller ids is acyclic -/
+theorem le_of_decreasing {es : ES} (h : ∀ e c, c ∈ es.causesOf e → c < e) {x y : Nat} (hle : Le es x y) : x ≤ y := by
+  induction hle with
+  | refl => exact Nat.le_refl _
+  | step hc _ ih => have := h _ _ hc; omega
+
+theorem acyclic_of_decreasing {es : ES} (h : ∀ e c, c ∈ es.causesOf e → c < e) : ∀ x, ¬ Lt es x x := by
+  rintro x ⟨c, hc, hle⟩
+  have := h _ _ hc
+  have := le_of_decreasing h hle
+  omega
+
 end SgVerif.C44
